@@ -453,14 +453,14 @@ def readers(ctx, R="R-C11-readers"):
     f = prog.func("util._hdf5_read_signal")
     txt = astq.text(f.node)
     ctx.check("h5py_file[key]" in txt and "np.array(data, dtype=dtype)" in txt and "np.array(data)" in txt, R, f, f.node,
-              "hdf5: `key` selects the dataset (first dataset otherwise) and dtype is applied when materialising")
+              "hdf5: `key` selects the dataset (first dataset otherwise) and dtype is applied when materialising", structural=True)
     f = prog.func("util._numpy_fromfile_read_signal")
     txt = astq.text(f.node)
     ctx.check("np.fromfile(rfilename, dtype=dtype, **kwargs)" in txt and "np.fromfile(rfilename, **kwargs)" in txt, R, f, f.node,
-              "raw binary: dtype is the interpretation of the bytes (np.fromfile(dtype=dtype))")
+              "raw binary: dtype is the interpretation of the bytes (np.fromfile(dtype=dtype))", structural=True)
     f = prog.func("util._torch_read_signal")
     txt = astq.text(f.node)
-    ctx.check("torch.load(rfilename, map_location='cpu', **kwargs).numpy()" in txt, R, f, f.node, "pt: the tensor is loaded on the CPU and viewed as an array")
+    ctx.check("torch.load(rfilename, map_location='cpu', **kwargs).numpy()" in txt, R, f, f.node, "pt: the tensor is loaded on the CPU and viewed as an array", structural=True)
     ctx.floor(R, n, 6)
     # wav: scipy first, wave module as ImportError fallback
     g = prog.func("util.read_signal")
@@ -488,7 +488,7 @@ def wds(ctx, R="R-C11-wds"):
     ctx.check(not t.finalbody and not t.orelse, R, f, t, "no else/finally clause that could raise")
     txt = astq.text(ast.Module(body=t.body, type_ignores=[])).replace(" ", "")
     ctx.check("force_as=_infer_force_as_from_rfilename(key)" in txt and "returnread_signal(io.BytesIO(data),force_as=force_as)" in txt, R, f, t,
-              "the sample is decoded from io.BytesIO(data) with the type inferred from the key's suffix", "try body is %s" % txt[:160])
+              "the sample is decoded from io.BytesIO(data) with the type inferred from the key's suffix", "try body is %s" % txt[:160], structural=True)
 
 
 def wave_shape(ctx, R="R-C11-wave-shape"):
